@@ -133,6 +133,9 @@ func RunC18(k *fw.Case) {
 			case "method":
 				if m.Fail {
 					m.Text = fmt.Sprintf("CO.MP(%d)", m.ID)
+				} else if r.Intn(2) == 0 {
+					// the receiver is a LOCAL that holds the injected object (a dotted name headed by a local)
+					m.Text = fmt.Sprintf("lco.M(%d)", m.ID)
 				} else {
 					m.Text = fmt.Sprintf("CO.M(%d)", m.ID)
 				}
@@ -150,7 +153,7 @@ func RunC18(k *fw.Case) {
 		if r.Intn(4) == 0 {
 			cr.reps = 2 + r.Intn(2)
 		}
-		fmt.Fprintf(&b, "rule \"%s\" salience %d\nbegin\n  st(%d)\n  pre1 = %d\n  pre2 = %d\n", cr.name, 100-i, cr.base, 7000+i, 8000+i)
+		fmt.Fprintf(&b, "rule \"%s\" salience %d\nbegin\n  st(%d)\n  pre1 = %d\n  pre2 = %d\n  lco = CO\n", cr.name, 100-i, cr.base, 7000+i, 8000+i)
 		for _, pv := range preExisting {
 			fmt.Fprintf(&b, "  %s = -1\n", pv)
 		}
